@@ -8,7 +8,7 @@ from spec import step_model as M
 
 PROPERTY = "C10"
 BOUNDS = {
-    "quick": "inductive step: pre-state = node a (id sym [10,99]) unknown / known without child / known with child, node b (id sym, distinct) unknown, outstanding-request marker for a and for b symbolic; one event from node a or b of 11 kinds (set on known/unknown child, req, stream, battery, sketch name, sketch version, heartbeat response, discover response, child presentation, node presentation) with a symbolic write-fault bit; 5 versions. Episodes: 2-event histories over {a,b} x {set, node presentation, child presentation} x fault bit (2.0, 2.2, 1.5)",
+    "quick": "inductive step: pre-state = node a (id sym [10,99]) unknown / known without child / known with child, node b (id sym, distinct) unknown, outstanding-request marker for a and for b symbolic; one event of 13 kinds: from node a or b (set on known/unknown child, req, stream, battery, sketch name, sketch version, heartbeat response, discover response, child presentation, node presentation) or from the gateway node (version reply, gateway presentation - must not disturb other nodes' episodes) with a symbolic write-fault bit; 5 versions. Episodes: 2-event histories over {a,b} x {set, node presentation, child presentation, gateway version reply} x fault bit (2.0, 2.2, 1.5)",
     "thorough": "as quick plus 3-event histories over {a,b} x {set, node presentation, child presentation} x fault bit on all five versions",
 }
 REALISED = []
@@ -29,8 +29,11 @@ KINDS = [
     ("discover-response", lambda n: (n, 255, 3, 0, 21, "")),
     ("child-presentation", lambda n: (n, 4, 0, 0, 6, "d")),
     ("node-presentation", lambda n: (n, 255, 0, 0, 17, "2.0")),
+    # traffic from the gateway node itself: must not disturb other nodes' episodes
+    ("gateway-version-reply", lambda n: (0, 255, 3, 0, 2, "@V")),
+    ("gateway-presentation", lambda n: (0, 255, 0, 0, 18, "@V")),
 ]
-HIST_KINDS_Q = [0, 10, 9]
+HIST_KINDS_Q = [0, 10, 9, 11]
 HIST_KINDS_T = [0, 4, 10, 9]
 
 
@@ -38,7 +41,7 @@ def partitions(tier):
     q = tier == "quick"
     parts = []
     for v in VERSIONS:
-        for g in range(3):
+        for g in range(4):
             parts.append({"name": "step-%s-g%d" % (v, g), "fn": "sym_step", "version": v, "group": g, "budget": 400 if q else 1500, "cost": 3})
         if not q or v in ("2.0", "2.2", "1.5"):
             for fa in ((None,) if q else (0, 1)):
@@ -59,6 +62,8 @@ def _apply(w, inp, ev, fault, tag_acc, base_choice=True):
     else:
         w.tr.fail = (lambda i: True) if fault else None
     before_markers = len(w.st.markers)
+    if ev[5] == "@V":
+        ev = ev[:5] + (w.version,)
     kind, val, writes = w.feed(M.line(*ev))
     out, mwrites = M.step(w.st, *ev, conv=("ok", 55 if ev[4] == 0 else 10), fail_write=fault)
     if out.kind == "TransportFailedError":
@@ -98,7 +103,7 @@ def sym_step(inp, part):
     if inp.bool("b_marked"):
         w.mark(b)
     n = a if inp.bool("from_a") else b
-    group = [KINDS[0:4], KINDS[4:8], KINDS[8:11]][part["group"]]
+    group = [KINDS[0:4], KINDS[4:8], KINDS[8:11], KINDS[11:13]][part["group"]]
     name, mk = group[inp.pick("kind", len(group))]
     fault = inp.bool("fault")
     tags = []
